@@ -163,7 +163,17 @@ SKEL = [
     ('start: (pair | flag)+\npair: KEY value\nflag: "no" KEY\nvalue: NUM | "[" NUM+ "]" -> nums\nKEY: /[a-z]+[.][a-z]+|[a-z]+/\nNUM: /[0-9]+([.][0-9]+)?/\n%ignore " "\n',
      ['K N', 'no K', 'K [ N N N ]', 'K N no K K N']),
 ]
-FILL = {'N': ['1', '22', '1.5', '0.25'], 'P': ['os.path', 'a.b.c'], 'W': ['x', 'ab', 'as_', 'nota'], 'R': ['a-b', 'x-y'], 'K': ['k', 'a.b', 'no', 'key']}
+SKEL += [
+    # lists of ?-rules whose multi-child alternatives contain filtered literals, in three list encodings; several trees are
+    # reconstructed one after the other by ONE Reconstructor (its matcher caches per rule name)
+    ('start: _items\n_items: thing | thing _items\n?thing: item | block\n?item: W | "(" W W ")"\nblock: "{" _items "}"\nW: /[a-z]/\n%ignore " "\n',
+     ['( L L )', 'L', '{ L L L }', '{ ( L L ) L }', 'L ( L L )', '{ L { L L } }']),
+    ('start: thing+\n?thing: item | block\n?item: W | "(" W W ")"\nblock: "{" thing+ "}"\nW: /[a-z]/\n%ignore " "\n',
+     ['( L L )', 'L', '{ L L L }', '{ ( L L ) L }', 'L ( L L )']),
+    ('start: _l\n_l: _l thing | thing\n?thing: item | pair\n?item: W | "<" W "," W ">"\npair: W ":" thing\nW: /[a-z]/\n%ignore " "\n',
+     ['< L , L >', 'L', 'L : L', 'L : < L , L >', 'L < L , L > L']),
+]
+FILL = {'L': ['a', 'b', 'c', 'd'], 'N': ['1', '22', '1.5', '0.25'], 'P': ['os.path', 'a.b.c'], 'W': ['x', 'ab', 'as_', 'nota'], 'R': ['a-b', 'x-y'], 'K': ['k', 'a.b', 'no', 'key']}
 
 
 @st.composite
